@@ -22,6 +22,7 @@ pub fn prop() -> Prop {
             Sub::tape("thick_joins", 64, 100_000, 5_000_000, thick_joins),
             Sub::tape("large_joins", 40, 800, 40_000, large_joins),
             Sub::tape("large", 64, 3_000, 150_000, large),
+            Sub::tape("huge_sampled_rows", 400, 600, 30_000, huge),
             Sub::tape("primitives_queries", 48, 100_000, 5_000_000, queries).with_fp(),
             Sub::tape("real_arithmetic", 64, 60_000, 3_000_000, real_arithmetic).with_fp(),
             Sub::tape("far_offsets", 300, 60_000, 3_000_000, far_offsets).with_fp(),
@@ -254,6 +255,118 @@ fn large(d: &mut Dec, cx: &mut Cx) -> Res {
     Ok(())
 }
 
+
+/// Closed shapes of 1025..=20000 px (and lines / triangles to 3000 px) moved by up to +-3000 px, on a
+/// row-sampling target: the rows that `x.translate(d)` / `translate_mut` / `Styled::translate` draw are the rows
+/// of `x` shifted by `d`, on every probe of about 50 sampled rows (run ends of both, box edges, random columns).
+fn huge(d: &mut Dec, cx: &mut Cx) -> Res {
+    use embedded_graphics::geometry::Size;
+    use embedded_graphics::primitives::{Circle, CornerRadii, Ellipse, Line, Rectangle, RoundedRectangle, Triangle};
+    type C = Rgb565;
+    let kind = d.u(0, 5);
+    let closed = kind <= 3;
+    let size = |d: &mut Dec| if closed { crate::props::c06::huge_size(d) } else { d.u(1025, 3000) };
+    let (w, h) = match d.u(0, 3) {
+        0 => (size(d), d.u(1, 80)),
+        1 => (d.u(1, 80), size(d)),
+        _ => (size(d), size(d)),
+    };
+    let tl = if d.bool() { Point::new(-(w as i32) / 2 + d.i(-3, 3), -(h as i32) / 2 + d.i(-3, 3)) } else { Point::new(d.i(-25_000, 25_000 - w as i32 - 300), d.i(-25_000, 25_000 - h as i32 - 300)) };
+    let shape = match kind {
+        0 => Shape::Rect(Rectangle::new(tl, Size::new(w, h))),
+        1 => Shape::Circle(Circle::new(tl, w)),
+        2 => Shape::Ellipse(Ellipse::new(tl, Size::new(w, h))),
+        3 => {
+            let (l, r) = { let a = d.u(0, w); (a, d.u(0, w - a)) };
+            let (tp, bt) = { let a = d.u(0, h); (a, d.u(0, h - a)) };
+            Shape::RRect(RoundedRectangle::new(Rectangle::new(tl, Size::new(w, h)), CornerRadii { top_left: Size::new(l, tp), top_right: Size::new(r, tp), bottom_right: Size::new(r, bt), bottom_left: Size::new(l, bt) }))
+        }
+        4 => {
+            let a = Point::new(d.i(-1500, 1500), d.i(-1500, 1500));
+            let b = Point::new(d.i(-1500, 1500), d.i(-1500, 1500));
+            let c = Point::new(d.i(-1500, 1500), d.i(-1500, 1500));
+            let (b, c) = gen::structure_triangle(d, a, b, c);
+            Shape::Triangle(Triangle::new(a, Point::new(b.x.clamp(-3000, 3000), b.y.clamp(-3000, 3000)), Point::new(c.x.clamp(-3000, 3000), c.y.clamp(-3000, 3000))))
+        }
+        _ => Shape::Line(Line::new(tl, tl + Point::new(w as i32 * if d.bool() { 1 } else { -1 }, h as i32))),
+    };
+    let mut style = gen::style::<C>(d, if closed { 200 } else { 16 });
+    if kind == 5 && style.stroke_width == 0 {
+        style.stroke_width = 1;
+    }
+    // (triangles stay within +-6000 after the move; closed shapes within +-30000)
+    let lim = if closed { 3000 } else { 2500 };
+    let by = match d.u(0, 3) {
+        0 => Point::new(-tl.x + d.i(-3, 3), -tl.y + d.i(-3, 3)).component_max(Point::new(-lim, -lim)).component_min(Point::new(lim, lim)),
+        1 => Point::new(d.i(-lim, lim), 0),
+        _ => Point::new(d.i(-lim, lim), d.i(-lim, lim)),
+    };
+    let item: Item<C> = Item::Styled(shape, style);
+    cx.describe(|| format!("{} translate by {:?}", item.desc(), by));
+    cx.class(item.kind());
+    let bb = item.bounding_box();
+    let (y0, y1) = (bb.top_left.y, bb.top_left.y + bb.size.height as i32);
+    let mut rows: std::collections::BTreeSet<i32> = Default::default();
+    for base in [y0, y1, (y0 + y1) / 2, y0 + style.stroke_width as i32, y1 - style.stroke_width as i32, -by.y, 0] {
+        for k in -2..=2 {
+            rows.insert(base + k);
+        }
+    }
+    for _ in 0..24 {
+        rows.insert(d.i(y0 - 3, y1 + 3));
+    }
+    let k = item.kind();
+    let e = |what: &str, e: Fault| Fail { sig: format!("{}:{}_error", k, what), detail: format!("{:?}", e) };
+    let mut base = RowsT::<C>::new(rows.iter().copied());
+    item.draw(&mut base).map_err(|x| e("draw", x))?;
+    let moved_rows: Vec<i32> = rows.iter().map(|y| y + by.y).collect();
+    let mut routes: Vec<(&str, RowsT<C>)> = vec![];
+    for (name, mutating) in [("translate", false), ("translate_mut", true)] {
+        let mut t = RowsT::<C>::new(moved_rows.iter().copied());
+        item.draw_translated(by, mutating, &mut t).map_err(|x| e(name, x))?;
+        routes.push((name, t));
+    }
+    let mut t = RowsT::<C>::new(moved_rows.iter().copied());
+    if let Some(r) = item.draw_styled_translated(by, &mut t) {
+        r.map_err(|x| e("styled_translate", x))?;
+        routes.push(("Styled::translate", t));
+    }
+    ensure!(item.bounding_box_translated(by) == gen::Shape::Rect(bb).translate(by).bounding_box() || bb.is_zero_sized(), format!("{}:bounding_box", k), "bounding box of the moved object {:?}, the original's {:?} moved by {:?}", item.bounding_box_translated(by), bb, by);
+    let (x0, x1) = (bb.top_left.x, bb.top_left.x + bb.size.width as i32);
+    let mut painted = 0u64;
+    for &y in &rows {
+        let mut probes: std::collections::BTreeSet<i32> = Default::default();
+        let mut near = |x: i32| {
+            for k in -2..=2 {
+                probes.insert(x + k);
+            }
+        };
+        for x in base.run_ends(y).into_iter().chain([x0, x1, (x0 + x1) / 2, -by.x, 0]) {
+            near(x);
+        }
+        for (_, t) in &routes {
+            for x in t.run_ends(y + by.y).into_iter().take(64) {
+                near(x - by.x);
+            }
+        }
+        for _ in 0..6 {
+            probes.insert(d.i(x0 - 3, x1 + 3));
+        }
+        for &x in &probes {
+            let q = Point::new(x, y);
+            let a = base.color_at(q);
+            painted += u64::from(a.is_some());
+            for (name, t) in &routes {
+                let b = t.color_at(q + by);
+                if a != b {
+                    return fail(format!("{}:{}_pixels", k, name), format!("{:?} is {:?} in the drawing of the object, but {:?} + {:?} is {:?} in the drawing of the object moved with {}", q, a, q, by, b, name));
+                }
+            }
+        }
+    }
+    cx.nontrivial(by != Point::zero() && painted >= 2);
+    Ok(())
+}
 
 /// Thick outlines (no fill) of triangles and open polylines whose edges are 400..=1100 px long and have small
 /// rational slopes, so that stroke edges meet exactly on half pixels; offsets up to +-1100. The rounding of
